@@ -38,7 +38,7 @@ def collect(rep, results, cfgname, kinds=KINDS, prop='C01'):
                     '\n  '.join(o.get('path', [])))
                 rep.ob(False, site, '%s %s unproven at %s in %s (entry %s[%s], %s): %s' % (
                     prop, o['kind'], o['loc'], o['fn'], r['fn'], r['label'], cfgname, o['what'][:140]), detail)
-        for e in (r['extra'] or []):
+        for e in (r['extra'] if isinstance(r['extra'], list) else []):
             site = '%s:%s:%s' % (e['fn'], e['kind'], e['what'].split(' (')[0][:80])
             if e['ok']:
                 rep.ob(True, site, '', sample={'kind': e['kind'], 'exit_of': '%s[%s]' % (r['fn'], r['label']), 'discharged': e['what'][:160]})
